@@ -175,3 +175,6 @@ P["C09"]["st_any"] = _both(_fields("chan", [2, 3, 4, 5]), _fields("user", [2, 10
 P["C11"]["st_any"] = _both(_oper_bits, st_kinds({"wallops"}))
 P["C14"]["st_any"] = _both(st_kinds({"ban"}), _fields("chan", [2, 8, 9, 10]), _fields("user", [2, 6]))
 P["C06"]["st_any"] = _both(st_kinds({"wallops"}), _fields("user", [2, 9, 10]))
+# the command counters are a write-only frame for every handler except `STATS m`: `bumpCommLine_of_not_stats` (all 41 handlers)
+# and hence `general_serialisable_whole_nostats` (Irc/Props/C18Counters*.lean)
+P["C18"]["extra_modules"] = P["C18"]["extra_modules"] + ["Irc.Props.C18Counters"]
